@@ -74,7 +74,7 @@ func buildBase(t *rapid.T, label string, allowMerge bool, c *compo) (mocrelay.Ha
 		c.cleanup = append(c.cleanup, func() { cancel(); time.Sleep(5 * time.Millisecond); db.Close() })
 		return h, "sqlite"
 	default:
-		n := rapid.IntRange(2, 3).Draw(t, label+"mergen")
+		n := rapid.SampledFrom([]int{2, 2, 3, 3, 4, 5}).Draw(t, label+"mergen")
 		var hs []mocrelay.Handler
 		var ds []any
 		for i := 0; i < n; i++ {
